@@ -267,6 +267,28 @@ Section ProvProofs.
     - intros a pv e. apply if_possible_bad_prov_fails.
     - intros a. apply if_possible_spec.
   Qed.
+
+  Notation manager_dep_ok := (manager_dep_ok keyring sigbody signer clearsign_decode check_sig sha256 yaml_meta_ok yaml_sums).
+
+  (* helm dependency update --verify / build --verify: a dependency is accepted only if its
+     provenance file was fetched and VerifyChart passed *)
+  Lemma dependency_verify_fails_closed kr chart provf name :
+    (manager_dep_ok (dep_update_strategy true) kr chart provf name = true \/
+     manager_dep_ok (dep_build_strategy true) kr chart provf name = true) ->
+    exists a pv by_ h, chart = Some a /\ provf = Some pv /\ verify_chart false kr (Some pv) name a = VOk by_ h.
+  Proof.
+    unfold Prov.manager_dep_ok, dep_update_strategy, dep_build_strategy. intros H.
+    assert (H' : exists h, download_to VerifyAlways kr chart provf name = DOk h).
+    { destruct H as [H|H]; destruct (download_to VerifyAlways kr chart provf name) as [|h]; try discriminate; eauto. }
+    destruct H' as [h E]. apply always_fails_closed in E as (a & pv & b & hh & -> & -> & Hv & _).
+    exists a, pv, b, hh. auto.
+  Qed.
+
+  (* before repair ec82a5f `helm dependency build --verify` accepted a dependency whose
+     provenance file was missing *)
+  Lemma dep_build_unrepaired_refuted kr a name :
+    manager_dep_ok (dep_build_strategy_unrepaired true) kr (Some a) None name = true.
+  Proof. reflexivity. Qed.
 End ProvProofs.
 
 (* ------------------------------------------------------------------ sign, then verify *)
